@@ -1,0 +1,28 @@
+//go:build verif
+
+// Accessors used only by the /verif correspondence harness. This file is
+// compiled only with -tags verif and adds no behaviour to the library.
+
+package tls
+
+import (
+	"bytes"
+
+	"github.com/refraction-networking/utls/internal/quicvarint"
+	"github.com/refraction-networking/utls/internal/quicvarint/protocol"
+)
+
+func VerifVarintAppend(b []byte, i uint64) []byte { return quicvarint.Append(b, i) }
+
+func VerifVarintAppendWithLen(b []byte, i uint64, length int64) []byte {
+	return quicvarint.AppendWithLen(b, i, protocol.ByteCount(length))
+}
+
+func VerifVarintLen(i uint64) int64 { return int64(quicvarint.Len(i)) }
+
+// VerifVarintRead decodes one varint from b and reports how many bytes it consumed.
+func VerifVarintRead(b []byte) (uint64, int, error) {
+	r := bytes.NewReader(b)
+	v, err := quicvarint.Read(r)
+	return v, len(b) - r.Len(), err
+}
